@@ -34,6 +34,7 @@ func c16(c *Ctx) {
 	r := c.Rng("main")
 	var caseNo int64
 	defer c16Concurrent(c)
+	c16ForeignDates(c)
 	if c.Mode == "tz" {
 		c16Zone(c)
 		return
@@ -407,6 +408,79 @@ func c16Zone(c *Ctx) {
 	}
 	c.Res.Count("zone-transitions-examined", int64(nTrans))
 	c.Res.Count("zone-years-swept", int64(len(years)))
+
+	// date-times of this zone around its transitions from 1970 on - both passes of a repeated hour, both sides of a skipped one -
+	// against instants less than two hours away: before exactly when the whole-second timestamp is the smaller
+	nFold := 0
+	for i := 1; i < len(z.periods); i++ {
+		T := z.periods[i].start
+		if T < 0 || T > civilUnix(2100, 1, 1, 0, 0, 0) || (!c.Thorough() && nFold > 60 && i%4 != int(c.Seed%4)) {
+			continue
+		}
+		if z.periods[i].off < z.periods[i-1].off {
+			nFold++
+		}
+		for _, du := range []int64{-7200, -3601, -3600, -3000, -1800, -600, -1, 0, 1, 600, 1800, 3000, 3599, 3600, 3601, 7200, int64(r.Pick(7200)) - 3600} {
+			dsec := T + du
+			dt := types.DateTime(time.Unix(dsec, 0).In(time.Local))
+			for _, dv := range []int64{-3600, -2400, -1, 0, 1, 1200, 2400, 3600, int64(r.Pick(7200)) - 3600} {
+				tsec := dsec + dv
+				if tsec < 0 {
+					continue
+				}
+				t := time.Unix(tsec, int64(r.Pick(2))*999_999_999)
+				if r.Chance(0.5) {
+					t = t.UTC()
+				}
+				caseNo++
+				c.Res.Eval(1)
+				want := dsec < tsec
+				if got := dt.Before(t); got != want {
+					c.Res.Violate("C16:datetime:before", fmt.Sprintf("DateTime(%s, unix %d).Before(%s, unix %d) = %v, expected %v (whole-second comparison; zone transition at unix %d) (TZ=%s)", time.Time(dt).Format(time.RFC3339), dsec, t.Format(time.RFC3339Nano), tsec, got, want, T, zone),
+						map[string]any{"datetime_unix": dsec, "instant_unix": tsec, "zone": zone}, caseNo)
+				}
+			}
+		}
+	}
+	c.Res.Count("zone-transitions-with-a-repeated-hour-examined(date-times)", int64(nFold))
+}
+
+// c16ForeignDates: a Date is a calendar date whatever location its underlying time value carries - an application that converts
+// its own timestamps (types.Date(t), t in UTC or in the controller's zone) gets dates that compare by their own year, month and
+// day like any other. Pairs include the same instant seen from two zones on different calendar days.
+func c16ForeignDates(c *Ctx) {
+	r := c.Rng("foreign-dates")
+	locs := []*time.Location{time.UTC, time.Local, time.FixedZone("E", 14*3600), time.FixedZone("W", -11*3600), time.FixedZone("H", 5*3600+45*60)}
+	for _, name := range []string{"Pacific/Auckland", "America/Los_Angeles", "Asia/Tokyo"} {
+		if l, err := time.LoadLocation(name); err == nil {
+			locs = append(locs, l)
+		}
+	}
+	ymd := func(d types.Date) []int { y, m, dd := time.Time(d).Date(); return []int{y, int(m), dd} }
+	bad := 0
+	for i := 0; i < c.N(20000, 200000) && bad < 4; i++ {
+		u := int64(r.Pick(4102444800))
+		v := u
+		switch r.Pick(4) {
+		case 0: // the same instant
+		case 1:
+			v = u + int64(r.Pick(2*86400)) - 86400
+		default:
+			v = int64(r.Pick(4102444800))
+		}
+		la, lb := locs[r.Pick(len(locs))], locs[r.Pick(len(locs))]
+		a, b := types.Date(time.Unix(u, 0).In(la)), types.Date(time.Unix(v, 0).In(lb))
+		want := cmpInts(ymd(a), ymd(b))
+		before, after, equal := a.Before(b), a.After(b), a.Equals(b)
+		c.Res.Eval(1)
+		c.Res.DistinctKey("foreign", u, v, la.String(), lb.String())
+		if before != (want < 0) || after != (want > 0) || equal != (want == 0) || b.After(a) != before || b.Before(a) != after {
+			bad++
+			c.Res.Violate("C16:date:calendar-order:other-locations", fmt.Sprintf("date %v (location %v) vs %v (location %v): before=%v equal=%v after=%v, their own year-month-day say %d", a, la, b, lb, before, equal, after, want),
+				map[string]any{"a_unix": u, "a_location": la.String(), "b_unix": v, "b_location": lb.String()}, int64(i))
+		}
+	}
+	c.Res.Count("date-pairs-in-other-locations", 1)
 }
 
 // c16Concurrent: the verdicts do not depend on what other goroutines are comparing at the time. Every goroutine builds the same
